@@ -15,6 +15,34 @@ Theorem model_is_source_C03_MatNorms : forall (F : SArith) (powf : F -> F -> F),
 Proof. intros F powf. exact (SrcEqMatNorms.model_is_source_MatNorms_lemma powf). Qed.
 Check model_is_source_C03_MatNorms : forall (F : SArith) (powf : F -> F -> F), @SrcEqMatNorms.model_is_source_MatNorms F powf.
 Print Assumptions model_is_source_C03_MatNorms.
+(* ---- tie of the model to the source of this run (package r2c2): gen/SrcWrapMatrix.v is regenerated on every check run from
+   src/matrix/{arithmetic,mod}.rs: the consuming operator forms (each delegates to the by-reference form), empty, rows, cols, Clone;
+   Proofs/SrcEqWrapMatrix.v proves each regenerated function equal to its hand-written model. *)
+From OV Require Proofs.SrcEqWrapMatrix.
+Theorem model_is_source_C03_WrapMatrix : forall A : Arith, @SrcEqWrapMatrix.model_is_source_WrapMatrix A.
+Proof. intros A. exact SrcEqWrapMatrix.model_is_source_WrapMatrix_lemma. Qed.
+Check model_is_source_C03_WrapMatrix : forall A : Arith, @SrcEqWrapMatrix.model_is_source_WrapMatrix A.
+Print Assumptions model_is_source_C03_WrapMatrix.
+
+(* ======================================================================== C04_r2c2.v.txt *)
+(* ---- tie of the model to the source of this run (package r2c2): gen/SrcWrapBanded.v is regenerated on every check run from
+   src/banded.rs: the consuming operator forms (each delegates to the by-reference form), empty, size, size_below, size_above, compact;
+   Proofs/SrcEqWrapBanded.v proves each regenerated function equal to its hand-written model. *)
+From OV Require Proofs.SrcEqWrapBanded.
+Theorem model_is_source_C04_WrapBanded : forall A : Arith, @SrcEqWrapBanded.model_is_source_WrapBanded A.
+Proof. intros A. exact SrcEqWrapBanded.model_is_source_WrapBanded_lemma. Qed.
+Check model_is_source_C04_WrapBanded : forall A : Arith, @SrcEqWrapBanded.model_is_source_WrapBanded A.
+Print Assumptions model_is_source_C04_WrapBanded.
+
+(* ======================================================================== C05_r2c2.v.txt *)
+(* ---- tie of the model to the source of this run (package r2c2): gen/SrcWrapTridiag.v is regenerated on every check run from
+   src/tridiagonal.rs: empty, size, the three diagonal accessors, Clone, the consuming matrix * vector;
+   Proofs/SrcEqWrapTridiag.v proves each regenerated function equal to its hand-written model. *)
+From OV Require Proofs.SrcEqWrapTridiag.
+Theorem model_is_source_C05_WrapTridiag : forall A : Arith, @SrcEqWrapTridiag.model_is_source_WrapTridiag A.
+Proof. intros A. exact SrcEqWrapTridiag.model_is_source_WrapTridiag_lemma. Qed.
+Check model_is_source_C05_WrapTridiag : forall A : Arith, @SrcEqWrapTridiag.model_is_source_WrapTridiag A.
+Print Assumptions model_is_source_C05_WrapTridiag.
 
 (* ======================================================================== C08_r2c2.v.txt *)
 (* ---- tie of the model to the source of this run (package r2c2): gen/SrcIter.v is regenerated from src/sparse.rs by
@@ -51,6 +79,16 @@ Proof. intros RA. exact (SrcEqRoots.model_is_source_Roots_lemma RA). Qed.
 Check model_is_source_C10_Roots : forall RA : RootArith, SrcEqRoots.model_is_source_Roots RA.
 Print Assumptions model_is_source_C10_Roots.
 
+(* ======================================================================== C11_r2c2.v.txt *)
+(* ---- tie of the model to the source of this run (package r2c2): gen/SrcWrapPoly.v is regenerated on every check run from
+   src/polynomial/{arithmetic,mod}.rs: the consuming operator forms, Index, empty, new, quadratic, cubic, size, degree, Clone;
+   Proofs/SrcEqWrapPoly.v proves each regenerated function equal to its hand-written model. *)
+From OV Require Proofs.SrcEqWrapPoly.
+Theorem model_is_source_C11_WrapPoly : forall A : Arith, @SrcEqWrapPoly.model_is_source_WrapPoly A.
+Proof. intros A. exact SrcEqWrapPoly.model_is_source_WrapPoly_lemma. Qed.
+Check model_is_source_C11_WrapPoly : forall A : Arith, @SrcEqWrapPoly.model_is_source_WrapPoly A.
+Print Assumptions model_is_source_C11_WrapPoly.
+
 (* ======================================================================== C15_r2c2.v.txt *)
 (* ---- tie of the model to the source of this run (package r2c2): gen/SrcVectorOps.v is regenerated from
    src/vector/{mod,operations,functions}.rs (find, resize, Index, clear, swap, push, push_front, insert, pop, size, new, zeros,
@@ -60,6 +98,14 @@ Theorem model_is_source_C15_VectorOps : forall A : Arith, @SrcEqVectorOps.model_
 Proof. intros A. exact SrcEqVectorOps.model_is_source_VectorOps_lemma. Qed.
 Check model_is_source_C15_VectorOps : forall A : Arith, @SrcEqVectorOps.model_is_source_VectorOps A.
 Print Assumptions model_is_source_C15_VectorOps.
+(* ---- tie of the model to the source of this run (package r2c2): gen/SrcWrapVector.v is regenerated on every check run from
+   src/vector/{arithmetic,mod}.rs: the consuming forms of + and - (they delegate to the by-reference forms), empty, create, Clone;
+   Proofs/SrcEqWrapVector.v proves each regenerated function equal to its hand-written model. *)
+From OV Require Proofs.SrcEqWrapVector.
+Theorem model_is_source_C15_WrapVector : forall A : Arith, @SrcEqWrapVector.model_is_source_WrapVector A.
+Proof. intros A. exact SrcEqWrapVector.model_is_source_WrapVector_lemma. Qed.
+Check model_is_source_C15_WrapVector : forall A : Arith, @SrcEqWrapVector.model_is_source_WrapVector A.
+Print Assumptions model_is_source_C15_WrapVector.
 
 (* ======================================================================== C16_r2c2.v.txt *)
 (* ---- tie of the model to the source of this run (package r2c2): gen/SrcParDot.v is regenerated from
@@ -89,6 +135,14 @@ Theorem model_is_source_C17_NewtonC : forall S : SArith, @SrcEqNewtonC.model_is_
 Proof. intros S. exact SrcEqNewtonC.model_is_source_NewtonC_lemma. Qed.
 Check model_is_source_C17_NewtonC : forall S : SArith, @SrcEqNewtonC.model_is_source_NewtonC S.
 Print Assumptions model_is_source_C17_NewtonC.
+(* ---- tie of the model to the source of this run (package r2c2): gen/SrcWrapNewton.v is regenerated on every check run from
+   src/newton.rs: the setters tolerance / delta / iterations / guess and parameters;
+   Proofs/SrcEqWrapNewton.v proves each regenerated function equal to its hand-written model. *)
+From OV Require Proofs.SrcEqWrapNewton.
+Theorem model_is_source_C17_WrapNewton : forall A : Arith, @SrcEqWrapNewton.model_is_source_WrapNewton A.
+Proof. intros A. exact SrcEqWrapNewton.model_is_source_WrapNewton_lemma. Qed.
+Check model_is_source_C17_WrapNewton : forall A : Arith, @SrcEqWrapNewton.model_is_source_WrapNewton A.
+Print Assumptions model_is_source_C17_WrapNewton.
 
 (* ======================================================================== C18_r2c2.v.txt *)
 (* ---- tie of the model to the source of this run (package r2c2): gen/SrcNewton.v / gen/SrcNewtonC.v are regenerated from
